@@ -29,6 +29,9 @@ WLam(m, p) == [k |-> "Lambda", op |-> "", i |-> <<>>, fn |-> <<m, p>>, nm |-> No
 WLamInt == [k |-> "Lambda", op |-> "concat", i |-> <<>>, fn |-> <<>>, nm |-> NoName]
 WCrash(site, v, m) == [k |-> "CRASH", op |-> site, i |-> <<>>, fn |-> <<Deref0(v).k, Deref0(v).op, m>>, nm |-> NoName]
 WDiverge == [k |-> "DIVERGE", op |-> "", i |-> <<>>, fn |-> <<>>, nm |-> NoName]
+WLocated(what) == [k |-> "ERROR", op |-> what, i |-> <<>>, fn |-> <<>>, nm |-> NoName]
+\* as in EvalAbs.tla: number literals keep their text; only 100..599 are HTTP statuses
+OStatusTexts == {"100", "101", "200", "201", "202", "204", "301", "302", "304", "400", "401", "403", "404", "409", "422", "500", "501", "503", "599"}
 
 \* events: [e, n (scope id), xs (names), nm (reference name)]
 Event(e, n, xs, nm) == [e |-> e, n |-> n, xs |-> xs, nm |-> nm]
@@ -71,6 +74,7 @@ EoAll(ctx, m, p, idxs, env, st, fuel) ==
            r == Eo(ctx, m, Append(p, c[1]), env, st, fuel)
        IN IF Bad(r.v) THEN r
           ELSE IF ~CastOK(c[2], r.v) THEN R(WCrash("cast_" \o c[2], r.v, m), r.st)
+          ELSE IF c[2] = "status" /\ Deref(r.v).k = "Number" /\ Deref(r.v).op \notin OStatusTexts THEN R(WLocated("status-domain"), r.st)
           ELSE EoAll(ctx, m, p, Tail(idxs), env, r.st, fuel)
 
 Eo(ctx, m, p, env, st, fuel) ==
@@ -80,7 +84,7 @@ Eo(ctx, m, p, env, st, fuel) ==
       all(idxs, result) == LET r == EoAll(ctx, m, p, idxs, env, st, fuel - 1) IN IF Bad(r.v) THEN r ELSE R(result, r.st)
       kids(cast) == [j \in 1..Len(nd.a) |-> <<j, cast>>]
   IN
-  CASE nd.k = "lit"  -> R(W(CASE nd.s = "num" -> "Number" [] nd.s = "str" -> "String" [] OTHER -> "HttpStatus"), st)
+  CASE nd.k = "lit"  -> R(IF nd.s = "num" THEN [W("Number") EXCEPT !.op = nd.q] ELSE W(IF nd.s = "str" THEN "String" ELSE "HttpStatus"), st)
     [] nd.k = "prim" -> R(IF nd.s = "uri" THEN W("Uri") ELSE W("Prim"), st)
     [] nd.k = "obj"  -> all(kids("property"), W("Object"))
     [] nd.k = "prop" -> all(<<<<1, "schema">>>>, W("Property"))
